@@ -28,6 +28,14 @@ fn get_used_lifetimes(ty: &Type) -> Vec<String> {
     ret
 }
 
+/// `Option<T>`, however the path to it is spelled
+fn is_option(ty: &Type) -> bool {
+    matches!(
+        ty.base().trim_start_matches("::"),
+        "Option" | "std::option::Option" | "core::option::Option"
+    )
+}
+
 fn get_array_lens(ty: &Type) -> Vec<String> {
     let mut ret = if let Category::Array {
         len: Some(ConstValType::Named(val)),
@@ -156,7 +164,7 @@ pub(crate) fn derive_struct_diff_struct(struct_: &Struct) -> TokenStream {
                 }
             }
 
-            match (attrs_recurse(&field.attributes), attrs_collection_type(&field.attributes), field.ty.base() == "Option") {
+            match (attrs_recurse(&field.attributes), attrs_collection_type(&field.attributes), is_option(&field.ty)) {
 
                 (false, None, false) => {  // The default case
                     l!(diff_enum_body, " {}({}),", field_name, field.ty.full());
@@ -1333,7 +1341,7 @@ pub(crate) fn derive_struct_diff_enum(enum_: &Enum) -> TokenStream {
             match (
                 attrs_recurse(&field.attributes),
                 attrs_collection_type(&field.attributes),
-                ty.base() == "Option",
+                is_option(&ty),
             ) {
                 (false, None, false) => {
                     // The default case
